@@ -304,7 +304,7 @@ def _oracle(c, rng):
     return None, None
 
 
-def divergence_probe(rng, relift):
+def divergence_probe(rng, relift, which=None):
     """one episode of a call diverges (a finite but huge initial condition whose lifting overflows); the OTHER episodes of
     the same call must be predicted exactly as if they were predicted alone - episodes are independent"""
     import logging
@@ -328,6 +328,8 @@ def divergence_probe(rng, relift):
     n = rng.randint(m + 3, m + 12)
     labels = rng.sample(range(0, 9), rng.randint(2, 3))
     bad = min(labels) if rng.random() < 0.7 else rng.choice(labels)        # usually the first one processed
+    if which is not None:                     # swept: the first / the last / a middle episode of the call diverges
+        bad = [min(labels), max(labels), sorted(labels)[len(labels) // 2]][which % 3]
     x0, U = [], []
     for l in labels:
         ic = rs.randn(m, 2) * (1e200 if l == bad else 1.0)
@@ -969,8 +971,8 @@ def run(ctx):
             ctx.fail(w, case, tags)
             break
     for relift in (True, False):
-        for _ in range(ctx.n(3, 20)):
-            w, case, tags = divergence_probe(ctx.rng, relift)
+        for j in range(ctx.n(4, 20)):
+            w, case, tags = divergence_probe(ctx.rng, relift, which=j)
             ctx.count('divergence probe')
             if w:
                 ctx.fail(w, case, tags)
